@@ -43,6 +43,14 @@ deriving Repr, DecidableEq
 def newSubstringPattern (str : List Nat) : Option SubPat :=
   if str = [] then none else some ⟨str, calcPrefFunc str⟩
 
+/-- `newSubstringPattern` for each middle fragment in turn (the loop of `newWildcardSearch`) -/
+def newSubstringPatterns : List (List Nat) → Option (List SubPat)
+  | [] => some []
+  | d :: ds =>
+    match newSubstringPattern d, newSubstringPatterns ds with
+    | some x, some xs => some (x :: xs)
+    | _, _ => none
+
 /-- `findSubstring`'s loop: `i` = index of `b`, returns `i+1` at the first full match, `none` = -1 -/
 def findLoop (val pf : List Nat) : List Nat → Nat → Nat → Option Nat
   | [], _, _ => none
